@@ -90,7 +90,8 @@ def gen_cases(tier):
                         pairs.append((li, ti))
             for li, ti in pairs:
                 for form in ("absolute", "relative", "dot-relative"):
-                    for variant in ("other-names", "same-property", "same-section", "same-both", "target-kinds-share-a-name", "same-definition"):
+                    for variant in ("other-names", "same-property", "same-section", "same-both", "same-section-other-type", "target-kinds-share-a-name", "same-definition",
+                                    "target-has-unnamed-children", "target-side-repository", "linker-without-definition"):
                         for mech in ("link", "include", "include-whole-file"):
                             if mech != "link" and form != "absolute":
                                 continue
@@ -147,6 +148,19 @@ def build_case(case, scratch):
             # the linking Section's own definition and reference read like the target's (nothing is filled in by the
             # merge, and clean must leave them alone)
             pre[li]["attrs"]["definition"] = tspec["attrs"]["definition"]
+        if case["variant"] == "linker-without-definition":
+            # nothing of the target stays behind after clean - also not its definition in a linking Section without one
+            pre[li]["attrs"].pop("definition", None)
+        if case["variant"] == "target-has-unnamed-children":
+            # children of the target that were created without a name (their id serves as name)
+            tspec["sections"].append({"name": None, "type": "t", "sections": [], "attrs": {"definition": "unnamed child"},
+                                      "properties": [{"name": "inner", "values": [1]}]})
+            tspec["properties"].append({"name": None, "values": [7]})
+        if case["variant"] == "target-side-repository":
+            # the target carries a repository that the linking side does not share; its sub-Sections inherit it
+            tspec["attrs"]["repository"] = "file:///nonexistent-odml-verif/target_terms.xml"
+            if not tspec["sections"]:
+                tspec["sections"].append({"name": "tsub", "type": "t", "sections": [], "attrs": {}, "properties": []})
         if case["variant"] == "target-kinds-share-a-name" and tspec["sections"]:
             # Sections and Properties have separate name spaces: the target owns a Property named like one of its
             # own sub-Sections (the linker shares no child name with it, so the restoration law applies)
@@ -157,10 +171,11 @@ def build_case(case, scratch):
             tp = tspec["properties"][0]
             if not any(x["name"] == tp["name"] for x in pre[li]["properties"]):
                 pre[li]["properties"].append({"name": tp["name"], "values": [99], "attrs": {"unit": "mV"}})
-        if case["variant"] in ("same-section", "same-both") and tspec["sections"]:
+        if case["variant"] in ("same-section", "same-both", "same-section-other-type") and tspec["sections"]:
             ts = tspec["sections"][0]
             if not any(x["name"] == ts["name"] for x in pre[li]["sections"]):
-                pre[li]["sections"].append({"name": ts["name"], "type": ts["type"], "sections": [],
+                pre[li]["sections"].append({"name": ts["name"], "sections": [],
+                                            "type": ts["type"] + ("-other" if case["variant"] == "same-section-other-type" else ""),
                                             "attrs": {"definition": "own definition"},
                                             "properties": [{"name": "own", "values": [1]}]})
     if case["mech"] != "link":
@@ -252,7 +267,9 @@ def _run(case, scratch):
         fail("building-the-document-raises", "%s: %s" % (type(exc).__name__, exc))
         return {"failures": fails, "outcomes": ["build-raises"], "nontrivial": 1, "execs": 1}
     linkers = [l for l, _ in links]
-    shared_names = case["variant"] not in ("other-names", "target-kinds-share-a-name", "same-definition")
+    shared_names = case["variant"] not in ("other-names", "target-kinds-share-a-name", "same-definition",
+                                           "target-has-unnamed-children", "target-side-repository",
+                                           "linker-without-definition")
     for k, (l, t) in enumerate(links):
         ts, tp = target_children(case, links, include_doc, k)
         ls, lp = tree.children(l)
